@@ -916,14 +916,26 @@ func (a *Agent) DownloadAdd(FileID int, FilePath string, FileSize int64) error {
 func (a *Agent) DownloadWrite(FileID int, data []byte) error {
 	for i := range a.Downloads {
 		if a.Downloads[i].FileID == FileID {
-			_, err := a.Downloads[i].File.Write(data)
+			n, err := a.Downloads[i].File.Write(data)
 			if err != nil {
-				a.Downloads[i].File, err = os.Create(a.Downloads[i].LocalFile)
+				/* the handle is unusable (closed, i/o error). open the loot file again and
+				 * append what is still missing: creating it anew would truncate it and
+				 * throw away every chunk received so far. */
+				file, err := os.OpenFile(a.Downloads[i].LocalFile, os.O_WRONLY|os.O_APPEND|os.O_CREATE, 0666)
 				if err != nil {
-					return errors.New("Failed to create file: " + err.Error())
+					return errors.New("Failed to open file: " + err.Error())
 				}
 
-				_, err = a.Downloads[i].File.Write(data)
+				if a.Downloads[i].File != nil {
+					a.Downloads[i].File.Close()
+				}
+				a.Downloads[i].File = file
+
+				if n < 0 || n > len(data) {
+					n = 0
+				}
+
+				_, err = a.Downloads[i].File.Write(data[n:])
 				if err != nil {
 					return errors.New("Failed to write to file [" + a.Downloads[i].LocalFile + "]: " + err.Error())
 				}
